@@ -9,6 +9,7 @@
   branches return the same value), and it rejects every variant that returns a different tuple.
 -/
 import MofunModel.Proofs.CodeLemmas
+import MofunModel.Proofs.Code2Terms
 
 namespace Mofun.C19Code
 open Mofun Mofun.Generated Mofun.CodeLemmas
@@ -36,5 +37,35 @@ theorem typekey_eq_nat (t : List Nat) : Generated.Code.typekey t = Terms.typekey
 
 example : Generated.Code.typekey ["O_3", "C_R", "C_3"] = ["C_3", "C_R", "O_3"] := by decide
 example : Generated.Code.typekey [1, 5, 3] = [1, 5, 3] := by decide
+
+/-! ### delete_if_all_in_set (second batch) -/
+
+open Mofun.Code2Terms in
+/-- the per-tuple decision `len(set(tup) - s) == 0` is the model's `allInSet` -/
+theorem allInSet_decision (s t : List Nat) :
+    (Generated.Py.setLen (Generated.Py.setDiff t s) = 0) ↔ Terms.allInSet s t = true := setDiff_empty s t
+
+open Mofun.Code2Terms in
+/-- for ALL term arrays and exclusion sets: the translated `delete_if_all_in_set` (index collection over
+    `enumerate`, then `np.delete(arr, deletion_list, axis=0)`) = `Terms.deleteIfAllInSet` (a filter) -/
+theorem deleteIfAllInSet_eq (arr : List (List Nat)) (s : List Nat) :
+    Generated.Code.deleteIfAllInSet arr s = Terms.deleteIfAllInSet arr s := by
+  unfold Generated.Code.deleteIfAllInSet Terms.deleteIfAllInSet Generated.Py.npDelete Generated.Py.enumerate
+  simp only [forFold_eq_foldl]
+  have e : ∀ (acc : List Nat) (p : Nat × List Nat),
+      (if Generated.Py.setLen (Generated.Py.setDiff p.2 s) = 0 then acc ++ [p.1] else acc) =
+        if Terms.allInSet s p.2 then acc ++ [p.1] else acc := by
+    intro acc p
+    by_cases h : Terms.allInSet s p.2 = true
+    · simp [h, (setDiff_empty s p.2).mpr h]
+    · have : ¬ Generated.Py.setLen (Generated.Py.setDiff p.2 s) = 0 := fun h' => h ((setDiff_empty s p.2).mp h')
+      simp [h, this]
+  have e' : ∀ (t : List Nat), Generated.Py.setSubset t s = Terms.allInSet s t := fun _ => rfl
+  have := collect_eq (fun t => Terms.allInSet s t) arr 0 []
+  simp only [List.nil_append] at this
+  simp only [e, e']
+  rw [this, deleteIdx_collected]
+
+example : Generated.Code.deleteIfAllInSet [[0, 1], [1, 2], [2, 3]] [0, 1, 2] = [[2, 3]] := by decide
 
 end Mofun.C19Code
